@@ -161,8 +161,22 @@ class Recorder:
                 f"raises:{type(e).__name__}@{fr[0]}:{fr[1]}",
                 f"{type(e).__name__}: {e}",
             ) from e
+        # a case may enumerate many scenarios internally (fault enumeration): count each
+        for desc, nontriv in info.get("sub_cases", ()):
+            self.evaluations += 1
+            s["evaluations"] += 1
+            if nontriv:
+                h = sha([sub.name, desc])
+                if h not in self.nontrivial:
+                    self.nontrivial.add(h)
+                    s["nontrivial"] += 1
+        if info.get("sub_cases"):
+            self.evaluations -= 1
+            s["evaluations"] -= 1
         for c in info.get("classes", ()):
             self.classes[c] = self.classes.get(c, 0) + 1
+        for k, v in info.get("class_counts", {}).items():
+            self.classes[k] = self.classes.get(k, 0) + v
         for k, v in info.get("excluded", {}).items():
             self.excluded[k] = self.excluded.get(k, 0) + v
         if info.get("nontrivial"):
